@@ -89,10 +89,19 @@ def _container_loop(n):
         if not m:
             return None
         var = m.group(1)
-    m = re.match(r"^\(%s<(.+)\)$" % re.escape(var), _n(C.text(cond)))
-    if not m or _n(C.text(inc)).strip("()") not in ("++" + var, var + "++", var + "++0"):
+    # `k < n && !found`: the bound test, and flags that end the loop early (the whole container is still the range walked)
+    conj = C._split_and(C.strip(cond)) if hasattr(C, "_split_and") else [cond]
+    bound = None
+    for c_ in conj:
+        t_ = _n(C.text(c_))
+        m = re.match(r"^\(?%s<(.+?)\)?$" % re.escape(var), t_)
+        if m and bound is None:
+            bound = m.group(1)
+        elif not re.match(r"^\(?!\(?\w+\)?\)?$", t_):
+            return None
+    if bound is None or _n(C.text(inc)).strip("()") not in ("++" + var, var + "++", var + "++0"):
         return None
-    return var, m.group(1), "index"
+    return var, bound, "index"
 
 
 def r1_result_order(ctx, cf):
@@ -272,6 +281,41 @@ def r1(ctx, cf):
                 if has_fact(lastf, "<=", Rat(Poly.const(0)) - dd):
                     within, kind = False, kind_
                     break
+            if within is None:
+                # the flag form: the body ends by storing the comparison in a local, `found = (|delta|^2 < cutoff^2)`; the loop header stops on it
+                # and the atom is recorded after the loop.  Decoded by value like the branch form.
+                for kind_ in (("plain",) if mode == "nobox" else ("tri", "rect")):
+                    want_d, want_d2 = spec(ex, kind_)
+                    dd = want_d2 - sym("cutoff") * sym("cutoff")
+                    flag = next((k_ for k_, v_ in o.env.items() if isinstance(k_, str) and isinstance(v_, Rat) and v_.const_value() is None
+                                 and has_fact(elementary_facts(ex, v_, True), "<", dd)), None)
+                    if flag is not None:
+                        hdr = [_n(C.text(c_)) for c_ in (C._split_and(C.strip(il.get("inner", [None, None, None])[2])) if il.get("inner", [None] * 3)[2] else [])]
+                        stops = any(re.match(r"^\(?!\(?%s\)?\)?$" % re.escape(flag), t_) for t_ in hdr)
+                        after = C.kids(obody)[C.kids(obody).index(il) + 1:] if il in C.kids(obody) else []
+                        verdicts = []
+                        for fv in (1, 0):
+                            st2 = o.fork()
+                            st2.env[flag] = Rat(Poly.const(fv))
+                            st2.loopctl = None
+                            n0 = len(pushed)
+                            try:
+                                ex.run(after, st2)
+                            except Unsupported:
+                                verdicts.append(None)
+                                continue
+                            new_ = pushed[n0:]
+                            verdicts.append(len(new_) == fv and all(len(r_[2]) == 1 and r_[2][0] == i for r_ in new_))
+                        init_false = any(v_["kind"] == "VarDecl" and v_.get("name") == flag and C.kids(v_) and _n(C.text(C.kids(v_)[-1])).strip("()") in ("false", "0") for v_ in C.walk(obody))
+                        if stops and init_false and verdicts == [True, True]:
+                            seen_kinds.add(kind_)
+                            within = "flag"
+                        else:
+                            problems.append("%s cell: the comparison is kept in `%s`, but %s" % (kind_, flag, "the loop does not stop on it" if not stops else ("it does not start as false" if not init_false else "the atom is not recorded exactly once after the loop when it is set")))
+                            within = "flag-bad"
+                        break
+                if within in ("flag", "flag-bad"):
+                    continue
             if within is not None:
                 seen_kinds.add(kind)
             if within is None:
@@ -723,16 +767,26 @@ def r5_disjoint_x_ranges(ctx, cf):
     from ..symval import SymExec, State, Ptr, Unsupported, elementary_facts, has_fact
     from ..poly import Poly, Rat
     gn = cf.function(NL, "getNeighbors")
-    blocks = [n for n in C.walk(gn) if n["kind"] == "IfStmt" and re.sub(r"[\s()]", "", C.text(C.kids(n)[0])).replace("this.", "") == "needPeriodic"]
     desc = "the two x ranges searched in a voxel near a cell face do not overlap"
-    if not blocks:
-        ctx.undecided("C10-R5", C.line(gn), NL, "Voxels::getNeighbors", desc, "the block that sets the search ranges under `needPeriodic` was not found")
-        return
-    blk = blocks[0]
-    arrays = sorted({C.root_var(C.kids(x_)[0])[0] for x_ in C.walk(blk) if x_["kind"] == "BinaryOperator" and x_.get("opcode") == "=" and C.strip(C.kids(x_)[0]).get("kind") == "ArraySubscriptExpr"} - {None})
+    # the statements between the declaration of the two range arrays (int[2]) and the loop that walks the ranges
+    arrs = [v for v in C.walk(gn) if v["kind"] == "VarDecl" and re.sub(r"\s", "", C.qtype(v)) == "int[2]"]
+    arrays = sorted({v.get("name") for v in arrs})
     if len(arrays) != 2:
-        ctx.undecided("C10-R5", C.line(blk), NL, "Voxels::getNeighbors", desc, "the range arrays were not recognised (%s)" % arrays)
+        ctx.undecided("C10-R5", C.line(gn), NL, "Voxels::getNeighbors", desc, "the two range arrays (int[2]) were not found (%s)" % arrays)
         return
+    comp = next((n for n in C.walk(gn) if n["kind"] == "CompoundStmt" and any(k_["kind"] == "DeclStmt" and any(v_ is arrs[0] for v_ in C.kids(k_)) for k_ in C.kids(n))), None)
+    if comp is None:
+        ctx.undecided("C10-R5", C.line(gn), NL, "Voxels::getNeighbors", desc, "the block that declares the range arrays was not found")
+        return
+    kids_ = C.kids(comp)
+    i0 = next(k_ for k_, x_ in enumerate(kids_) if x_["kind"] == "DeclStmt" and any(v_ in arrs for v_ in C.kids(x_)))
+    uses = lambda x_: any(y_["kind"] == "DeclRefExpr" and y_.get("referencedDecl", {}).get("name") in arrays for y_ in C.walk(x_))       # noqa: E731
+    i1 = next((k_ for k_, x_ in enumerate(kids_) if k_ > i0 and x_["kind"] == "ForStmt" and uses(x_)), None)
+    if i1 is None:
+        ctx.undecided("C10-R5", C.line(comp), NL, "Voxels::getNeighbors", desc, "the loop over the ranges was not found")
+        return
+    seg = kids_[i0:i1]
+    blk = seg[0]
 
     def model(name, args, n, st, ex_):
         vals = [a for a in args if isinstance(a, Rat)]
@@ -740,25 +794,16 @@ def r5_disjoint_x_ranges(ctx, cf):
             return ex_.opaque_call(name, vals)
         if name in ("min", "max") and len(vals) == 2 and len(args) == 2:
             return ex_.opaque_call(name, vals)
+        if name == "size":
+            return ex_.opaque_call("size", [])
         return None
     ex = SymExec(cf, NL, call_model=model)
-    # which array holds the starts: the one assigned before the block from findLowerBound (the other holds the ends)
-    pre = [x_ for x_ in C.walk(gn) if x_["kind"] == "BinaryOperator" and x_.get("opcode") == "=" and C.strip(C.kids(x_)[0]).get("kind") == "ArraySubscriptExpr"
-           and C.root_var(C.kids(x_)[0])[0] in arrays and "findLowerBound" in C.text(C.kids(x_)[1]) and not any(y_ is x_ for y_ in C.walk(blk))]
-    if not pre:
-        ctx.undecided("C10-R5", C.line(blk), NL, "Voxels::getNeighbors", desc, "the start of the primary range (findLowerBound before the block) was not found")
-        return
-    S_ = C.root_var(C.kids(pre[0])[0])[0]
-    E_ = [a_ for a_ in arrays if a_ != S_][0]
     st = State()
-    for a_ in arrays:
-        st.env[a_] = Ptr(a_, 0)
-    s0 = Rat(Poly.var("start0"))
-    st.env[(S_, 0)] = s0
-    for nm in ("needPeriodic", "this.needPeriodic"):
-        st.env[nm] = Rat(Poly.const(1))
-    # members and locals of the enclosing function that the block subscripts: arrays of unknown content
-    for x_ in C.walk(blk):
+    for nm in ("needPeriodic", "this.needPeriodic", "minx", "maxx"):
+        st.env[nm] = Rat(Poly.var(nm.replace("this.", "")))
+    # members and locals of the enclosing function that the statements subscript: arrays of unknown content
+    for top_ in seg:
+      for x_ in C.walk(top_):
         if x_["kind"] in ("ArraySubscriptExpr", "CXXOperatorCallExpr"):
             base = C.kids(x_)[0] if x_["kind"] == "ArraySubscriptExpr" else (C.call_args(x_)[0] if C.call_args(x_) else None)
             while base is not None and C.strip(base).get("kind") in ("ArraySubscriptExpr", "CXXOperatorCallExpr"):
@@ -769,10 +814,30 @@ def r5_disjoint_x_ranges(ctx, cf):
                 for nm in (t_, t_.replace("this.", ""), "this." + t_.replace("this.", "")):
                     st.env.setdefault(nm, Ptr(t_.replace("this.", ""), 0))
     try:
-        outs = ex.run([blk], st)
+        outs = [st]
+        for stmt in seg:
+            nxt = []
+            for s_ in outs:
+                try:
+                    nxt += ex.run([stmt], s_)
+                except Unsupported:
+                    if stmt["kind"] != "DeclStmt":
+                        raise
+                    for v_ in C.kids(stmt):      # a local whose initialiser the evaluator does not read (a container's size ...): an unknown value
+                        if v_["kind"] == "VarDecl":
+                            s_.env[v_.get("name")] = Rat(Poly.var(v_.get("name")))
+                    nxt.append(s_)
+            outs = nxt
     except Unsupported as e:
         ctx.undecided("C10-R5", C.line(blk), NL, "Voxels::getNeighbors", desc, "not evaluable: %s" % e)
         return
+    # which array holds the starts: the one whose first element is what findLowerBound returned
+    S_ = next((a_ for a_ in arrays for o_ in outs if isinstance(o_.env.get((a_, 0)), Rat) and len(o_.env[(a_, 0)].vars()) == 1
+               and ex.opaque.get(list(o_.env[(a_, 0)].vars())[0], ("",))[0] == "findLowerBound"), None)
+    if S_ is None:
+        ctx.undecided("C10-R5", C.line(blk), NL, "Voxels::getNeighbors", desc, "the start of the primary range (findLowerBound) was not found")
+        return
+    E_ = [a_ for a_ in arrays if a_ != S_][0]
 
     def args_of(v):
         if isinstance(v, Rat) and len(v.vars()) == 1 and v == Rat(Poly.var(list(v.vars())[0])):
@@ -812,15 +877,15 @@ def r5_disjoint_x_ranges(ctx, cf):
         return False
     n_two, bad = 0, []
     for o in outs:
-        s1, e1, e0 = o.env.get((S_, 1)), o.env.get((E_, 1)), o.env.get((E_, 0))
-        if s1 is None or e1 is None or e0 is None:
+        s1, e1, e0, s0 = o.env.get((S_, 1)), o.env.get((E_, 1)), o.env.get((E_, 0)), o.env.get((S_, 0))
+        if s1 is None or e1 is None or e0 is None or s0 is None:
             continue        # one range only on this path
         n_two += 1
         facts = []
         for (cv, pol), (txt, _p) in zip(o.cexprs, o.cvals):
             facts += elementary_facts(ex, cv if cv is not None else txt, pol)
         if not (le(e1, s0, facts) or ge(s1, e0, facts)):
-            bad.append("second range [%s, %s) against the first [start0, %s)" % (repr(s1)[:70], repr(e1)[:50], repr(e0)[:50]))
+            bad.append("second range [%s, %s) against the first [%s, %s)" % (repr(s1)[:70], repr(e1)[:50], repr(s0)[:40], repr(e0)[:50]))
     if n_two == 0:
         ctx.undecided("C10-R5", C.line(blk), NL, "Voxels::getNeighbors", desc, "no path sets a second range")
         return
